@@ -1,0 +1,117 @@
+//go:build verif
+
+// Machine-checked contracts for package server (comment-only; see /verif/DESIGN.md).
+
+package server
+
+// ---------------------------------------------------------------------------------------------
+// Authorisation typestate (property C15)
+//
+// ghost.authz[resource][action] is true only if, during the current API call, the policy engine
+// granted (client, resource, action). It can only be set by ensureAuthorizationPermission.
+//@ ghost var authz ghostmap[string]ghostmap[string]bool
+//@ pure func permitted(sub interface{}, obj interface{}, act interface{}) bool
+
+//@ func (*apiServer).enforcePolicy serves C15
+//@   returns (ok, err)
+//@   ensures [asks-the-policy] err == nil ==> ok == permitted(boxed(subject), boxed(object), boxed(action))
+
+//@ func (*apiServer).ensureAuthorizationPermission serves C15
+//@   requires a != nil && a.Server != nil && a.config != nil
+//@   modifies ghost.authz, computed
+//@   ghost after call enforcePolicy: ghost.authz[stream][apiMethod] := ret0 && ret1 == nil
+//@   ensures [granted] result == nil ==> !a.config.TLSClientAuthz || ghost.authz[stream][apiMethod]
+//@   ensures [only-this] forall r string, x string :: ghost.authz[r][x] ==> old(ghost.authz[r][x]) || (r == stream && x == apiMethod)
+//@   ensures [config-kept] a.config.TLSClientAuthz == old(a.config.TLSClientAuthz)
+
+//@ func convertPublishAsyncError serves C15
+//@   ensures err != nil ==> result != nil
+
+// Every gRPC handler starts with nothing authorised, refuses the call unless the matching
+// (resource, action) was granted, and reaches its effect only after the grant.
+//@ func (*apiServer).CreateStream serves C15
+//@   returns (resp, err)
+//@   requires a != nil && a.Server != nil && a.config != nil && req != nil
+//@   requires forall r string, x string :: !ghost.authz[r][x]
+//@   call (*metadataAPI).CreateStream requires !a.config.TLSClientAuthz || ghost.authz[arg2.Stream.Name]["CreateStream"]
+//@   ensures [refused] old(a.config.TLSClientAuthz) && !ghost.authz[old(req.Name)]["CreateStream"] ==> err != nil
+
+//@ func (*apiServer).DeleteStream serves C15
+//@   returns (resp, err)
+//@   requires a != nil && a.Server != nil && a.config != nil && req != nil
+//@   requires forall r string, x string :: !ghost.authz[r][x]
+//@   call (*metadataAPI).DeleteStream requires !a.config.TLSClientAuthz || ghost.authz[arg2.Stream]["DeleteStream"]
+//@   ensures [refused] old(a.config.TLSClientAuthz) && !ghost.authz[old(req.Name)]["DeleteStream"] ==> err != nil
+
+//@ func (*apiServer).PauseStream serves C15
+//@   returns (resp, err)
+//@   requires a != nil && a.Server != nil && a.config != nil && req != nil
+//@   requires forall r string, x string :: !ghost.authz[r][x]
+//@   call (*metadataAPI).PauseStream requires !a.config.TLSClientAuthz || ghost.authz[arg2.Stream]["PauseStream"]
+//@   call (*metadataAPI).GetStream requires !a.config.TLSClientAuthz || ghost.authz[arg1]["PauseStream"]
+//@   ensures [refused] old(a.config.TLSClientAuthz) && !ghost.authz[old(req.Name)]["PauseStream"] ==> err != nil
+
+//@ func (*apiServer).SetStreamReadonly serves C15
+//@   returns (resp, err)
+//@   requires a != nil && a.Server != nil && a.config != nil && req != nil
+//@   requires forall r string, x string :: !ghost.authz[r][x]
+//@   call (*metadataAPI).SetStreamReadonly requires !a.config.TLSClientAuthz || ghost.authz[arg2.Stream]["SetStreamReadonly"]
+//@   call (*metadataAPI).GetStream requires !a.config.TLSClientAuthz || ghost.authz[arg1]["SetStreamReadonly"]
+//@   ensures [refused] old(a.config.TLSClientAuthz) && !ghost.authz[old(req.Name)]["SetStreamReadonly"] ==> err != nil
+
+//@ func (*apiServer).Subscribe serves C15
+//@   requires a != nil && a.Server != nil && a.config != nil && req != nil
+//@   requires forall r string, x string :: !ghost.authz[r][x]
+//@   call (*apiServer).SubscribeInternal requires !a.config.TLSClientAuthz || ghost.authz[arg2.Stream]["Subscribe"]
+//@   call Send requires !a.config.TLSClientAuthz || ghost.authz[req.Stream]["Subscribe"]
+//@   ensures [refused] old(a.config.TLSClientAuthz) && !ghost.authz[old(req.Stream)]["Subscribe"] ==> result != nil
+
+//@ func (*apiServer).FetchMetadata serves C15
+//@   returns (resp, err)
+//@   requires a != nil && a.Server != nil && a.config != nil && req != nil
+//@   requires forall r string, x string :: !ghost.authz[r][x]
+//@   call (*metadataAPI).FetchMetadata requires !a.config.TLSClientAuthz || ghost.authz["*"]["FetchMetadata"]
+//@   ensures [refused] old(a.config.TLSClientAuthz) && !ghost.authz["*"]["FetchMetadata"] ==> err != nil
+
+//@ func (*apiServer).FetchPartitionMetadata serves C15
+//@   returns (resp, err)
+//@   requires a != nil && a.Server != nil && a.config != nil && req != nil
+//@   requires forall r string, x string :: !ghost.authz[r][x]
+//@   call (*metadataAPI).FetchPartitionMetadata requires !a.config.TLSClientAuthz || ghost.authz[arg2.Stream]["FetchPartitionMetadata"]
+//@   ensures [refused] old(a.config.TLSClientAuthz) && !ghost.authz[old(req.Stream)]["FetchPartitionMetadata"] ==> err != nil
+
+//@ func (*apiServer).Publish serves C15
+//@   returns (resp, err)
+//@   requires a != nil && a.Server != nil && a.config != nil && req != nil
+//@   requires forall r string, x string :: !ghost.authz[r][x]
+//@   call (*apiServer).resumeStream requires !a.config.TLSClientAuthz || ghost.authz[arg2]["Publish"]
+//@   call (*apiServer).publish requires !a.config.TLSClientAuthz || ghost.authz[arg5.Stream]["Publish"]
+//@   ensures [refused] old(a.config.TLSClientAuthz) && !ghost.authz[old(req.Stream)]["Publish"] ==> err != nil
+
+//@ func (*apiServer).PublishToSubject serves C15
+//@   returns (resp, err)
+//@   requires a != nil && a.Server != nil && a.config != nil && req != nil
+//@   requires forall r string, x string :: !ghost.authz[r][x]
+//@   call (*apiServer).publish requires !a.config.TLSClientAuthz || ghost.authz[arg2]["PublishToSubject"]
+//@   ensures [refused] old(a.config.TLSClientAuthz) && !ghost.authz[old(req.Subject)]["PublishToSubject"] ==> err != nil
+
+//@ func (*apiServer).SetCursor serves C15
+//@   returns (resp, err)
+//@   requires a != nil && a.Server != nil && a.config != nil && req != nil
+//@   requires forall r string, x string :: !ghost.authz[r][x]
+//@   call (*cursorManager).SetCursor requires !a.config.TLSClientAuthz || ghost.authz[arg2]["SetCursor"]
+//@   ensures [refused] old(a.config.TLSClientAuthz) && !ghost.authz[old(req.Stream)]["SetCursor"] ==> err != nil
+
+//@ func (*apiServer).FetchCursor serves C15
+//@   returns (resp, err)
+//@   requires a != nil && a.Server != nil && a.config != nil && req != nil
+//@   requires forall r string, x string :: !ghost.authz[r][x]
+//@   call (*cursorManager).GetCursor requires !a.config.TLSClientAuthz || ghost.authz[arg2]["FetchCursor"]
+//@   ensures [refused] old(a.config.TLSClientAuthz) && !ghost.authz[old(req.Stream)]["FetchCursor"] ==> err != nil
+
+// PublishAsync: every message of the stream is authorised on its own (the grant is reset per iteration).
+//@ func (*publishAsyncSession).publishLoop serves C15
+//@   requires p != nil && p.apiServer != nil && p.Server != nil && p.config != nil
+//@   ghost at loop 1: ghost.authz := reset()
+//@   call (*apiServer).resumeStream requires !p.config.TLSClientAuthz || ghost.authz[arg2]["Publish"]
+//@   call Publish requires !p.config.TLSClientAuthz || ghost.authz[req.Stream]["Publish"]
